@@ -259,7 +259,7 @@ func main() {
 				return
 			}
 			go func() { done <- c.Wait() }()
-			limit := time.Duration((budget*1.5+400)*float64(time.Second))
+			limit := time.Duration((budget*1.5 + 400) * float64(time.Second))
 			select {
 			case err := <-done:
 				if err != nil {
@@ -448,23 +448,23 @@ func main() {
 			"rule": "one evaluation = one simulated run (a fresh World: the rewritten sonic sources on the stub kernel, one tape). " +
 				"A run is non-trivial when at least one fault kind or reach probe fired in it; distinct = distinct 64-bit hashes of the complete event trace " +
 				"(every kernel call with its result, every delivery, every oracle-visible step) combined with the choice tape that produced it, among the non-trivial runs. " + meta.Rule,
-			"samples":                samples,
-			"exhaustive":             false,
-			"directed_runs":          total.Directed,
-			"runs_by_scenario":       total.ByScenario,
-			"runs_per_hour":          int(float64(total.Runs) / (wall - buildS + 0.001) * 3600),
-			"simulated_seconds":      float64(total.SimNs) / 1e9,
-			"scheduler_steps":        total.Steps,
-			"faults_fired":           faults,
-			"reach_probes":           probes,
-			"known_finding_hits":     total.KnownHits,
-			"excluded_input_classes": excluded,
-			"real_vs_stub":           meta.RealStub,
-			"workers":                *nw,
-			"build_s":                buildS,
-			"race_build":             wantRace,
+			"samples":                  samples,
+			"exhaustive":               false,
+			"directed_runs":            total.Directed,
+			"runs_by_scenario":         total.ByScenario,
+			"runs_per_hour":            int(float64(total.Runs) / (wall - buildS + 0.001) * 3600),
+			"simulated_seconds":        float64(total.SimNs) / 1e9,
+			"scheduler_steps":          total.Steps,
+			"faults_fired":             faults,
+			"reach_probes":             probes,
+			"known_finding_hits":       total.KnownHits,
+			"excluded_input_classes":   excluded,
+			"real_vs_stub":             meta.RealStub,
+			"workers":                  *nw,
+			"build_s":                  buildS,
+			"race_build":               wantRace,
 			"runs_under_race_detector": raceRuns,
-			"sonic_files_rewritten":  res.Files,
+			"sonic_files_rewritten":    res.Files,
 		},
 		"assumptions": meta.Assumptions,
 	}
